@@ -438,10 +438,10 @@ PROPS = {
         ],
     },
     "C15": {
-        "harness": "c15", "level": "proof", "category": "proof", "design_ref": "DESIGN.md 5/C15, 4.3, App. E, notes N8/D8", "translators": [],
-        "technique": "Lean 4 proof (greedy occlusion = unique solution of the rule, by induction over the visiting order; agreement of the "
+        "harness": "c15", "level": "proof", "category": "proof", "design_ref": "DESIGN.md 5/C15, 4.3, App. E, notes N8/D8", "translators": ["searchgraph"],
+        "technique": "PARTIAL tie by theorem for the dense diversify: its source text is translated to Lean on every run (harness/translate_searchgraph.py -> Gen/SearchGraphKernels.lean; FLOAT32_EPS, np.inf, dist(data[a], data[b]) and the generator tests uninterpreted) and the two inner loops of a row are proved equal to the model (kernel_diversify_row_refines_partial); the WHOLE translated kernel is executed against numba bit for bit with the recorded draws. Lean 4 proof (greedy occlusion = unique solution of the rule, by induction over the visiting order; agreement of the "
                      "list-append and the argsort form for every draw stream) + bit-exact differential correspondence of all four real kernels",
-        "text": "Lean theorems occlude_is_rule, rule_unique, first_retained, prob_zero_retains_all, kernels_agree, occlude_idempotent (and the "
+        "text": "TIE TO THE CODE (partial) for pynndescent_.diversify, regenerated from its source text on every run (prange as range, typed lists as arrays with push, break / flag, write-back with -1 / np.inf; uninterpreted class DivParams: eps, top, dist as a function of the two point numbers, draw i c = outcome of the c-th test tau_rand(rng_state+i) < prune_probability of row i): kernel_diversify_row_refines_partial - for every row of width >= 1, every dist, every draw stream, fuel >= 2W+2, the translated scan loop (= scanNew) and candidate loop (= divLoop) build, without out-of-bounds access, exactly the model's new_indices / new_distances (diversifyList row).1; kernel_diversify_first_and_prob_zero restates first_retained_list / prob_zero_retains_all_list on the translated kernel. NOT proved (stated in Props/C15.lean): the write-back loop (padding) and the outer loop over rows. Lean theorems occlude_is_rule, rule_unique, first_retained, prob_zero_retains_all, kernels_agree, occlude_idempotent (and the "
                 "list-form corollaries occlude_is_rule_list, first_retained_list, prob_zero_retains_all_list, list_stops_at_sentinel) about literal "
                 "models of the two loops behind the four kernels (diversify / sparse.diversify: list-append form with the -1 break; diversify_csr / "
                 "sparse.diversify_csr: argsort + retained[] form with the visiting order as a parameter), for every row length, storage order, "
@@ -452,7 +452,7 @@ PROPS = {
                 "prune_probability 1, 0 and 0.5 (the outcomes of tau_rand(rng_state+i) < 0.5 are recorded from the real generator and replayed "
                 "by the model), and the property predicate (iff-rule for some admissible tie order, nearest retained, probability 0 retains "
                 "all, dense = sparse, list = CSR on equal visiting orders) is evaluated on the real output",
-        "note": TB + "the sampled bit-exact correspondence between Model/Diversify.lean and the four kernels; the distance table handed to the "
+        "note": TB + "the translator harness/translate_searchgraph.py (validated on every run by executing the WHOLE translated diversify in the native driver, gk-div-list, on every generated row at p = 1, 0 and 0.5 with the recorded draws, bit for bit against numba: translated-kernel:diversify); the loads data[indices[i,j]] are not translated (dist is a table between point numbers, as in the model); the refinement theorem covers the two inner loops of a row only (write-back and outer loop: tied by the execution above and the sampled model comparison); diversify_csr and the sparse twins are not translated; the sampled bit-exact correspondence between Model/Diversify.lean and the four kernels; the distance table handed to the "
                      "model is the metric kernel's own float64 return value (dense and sparse kernels are observed to return identical bits on "
                      "the generated data); tau_rand itself is left out (its outcomes are replayed); tau_rand returning exactly 1.0 "
                      "(probability 3e-8 per draw) is excluded at prune_probability = 1; float32 lengths without NaN",
